@@ -54,6 +54,9 @@ impl<'a> Question<'a> {
 
 impl<'a> WireFormat<'a> for Question<'a> {
     fn parse(data: &'a [u8], position: &mut usize) -> crate::Result<Self> {
+        #[cfg(simple_dns_verif)]
+        crate::dns::verif::record(21, *position, 0, 0);
+
         let qname = Name::parse(data, position)?;
         if *position + 4 > data.len() {
             return Err(crate::SimpleDnsError::InsufficientData);
